@@ -383,11 +383,16 @@ def AnyBox.shapeArg (g : AnyBox) : Arg :=
 /-- `GeoboxTiles(box, tile_shape, *, _tiles=None)` (geobox.py:1317-1335) -/
 def GBTiles.ctorArg (g : AnyBox) (how : Option HowArg) (tiles : Option AnyTiles) : Option (Res GBTiles) :=
   match tiles with
-  | some t => some (.ok ⟨g, t⟩)                     -- used as is: never checked against the box
+  | some t => some (.ok ⟨g, t⟩)                     -- used as is: NOT checked against the box (only `how` is)
   | none =>
     match how with
     | none => some (.error .assertion)
-    | some h => (roiTilesArg g.shapeArg h).map (·.map (fun t => ⟨g, t⟩))
+    | some h =>
+      -- after `fix: GeoboxTiles refuses chunk tuples that do not add up to the GeoBox shape`
+      (roiTilesArg g.shapeArg h).map (fun r =>
+        match r with
+        | .error e => .error e
+        | .ok t => if t.base = (g.ny, g.nx) then .ok ⟨g, t⟩ else .error .valueError)
 
 /-! ## GridSpec.__init__ (gridspec.py:49-77) -/
 
